@@ -571,6 +571,15 @@ v('C09 C10', 'silent', 'filters.py', _EG_OLD, '        if len(innovation) > 0:\n
   '        else:\n            columns = measurement.data.columns\n', 'emptiness tested through len', every=True)
 v('C09 C10', 'silent', 'filters.py', _EG_OLD, '        if not innovation:\n            columns = measurement.data.columns\n'
   '        else:\n            columns = measurement.data.columns[:len(innovation[0])]\n', 'arms exchanged', every=True)
+# ------------------------------------------------------------------ partial lever arm (round-9 seed C06)
+_LV_OLD = '        if imu_to_antenna_b is not None and all(col in pva for col in RATE_COLS):\n'
+v('C06', 'fire', 'error_model.py', _LV_OLD, '        has_lever_arm = imu_to_antenna_b is not None and np.all(imu_to_antenna_b)\n        if has_lever_arm and all(col in pva for col in RATE_COLS):\n',
+  'seeded C06 round 9: a lever arm with a zero component is taken as absent in H only')
+v('C06', 'silent', 'error_model.py', _LV_OLD, '        has_lever_arm = imu_to_antenna_b is not None and np.any(imu_to_antenna_b)\n        if has_lever_arm and all(col in pva for col in RATE_COLS):\n',
+  'an all-zero lever arm skipped: the term it skips is zero')
+v('C06', 'fire', 'error_model.py', '        if imu_to_antenna_b is not None:\n            mat_nb = transform.mat_from_rph(pva[RPH_COLS])\n            result[:, self.PHI]',
+  '        if imu_to_antenna_b is not None and np.all(imu_to_antenna_b):\n            mat_nb = transform.mat_from_rph(pva[RPH_COLS])\n            result[:, self.PHI]',
+  'same guard in the position Jacobian')
 # ------------------------------------------------------------------ geometry C16 C05 C04 C03 C18
 T = 'transform.py'
 v('C16 C05', 'fire', T, '    rn, _, rp = earth.principal_radii(lla[:, 0], lla[:, 2])\n\n    lla[:, 0] +=',
